@@ -70,7 +70,7 @@ Theorem C19_configured_servers_are_init nofwd vrfs : Init (srv_init nofwd vrfs).
 Proof. exact (Init_srv_init nofwd vrfs). Qed.
 Print Assumptions C19_configured_servers_are_init.
 
-(* non-vacuity of the contract: the fourteen transcribed compliance tests respect it, so they pass in every order *)
+(* non-vacuity of the contract: the sixteen transcribed compliance tests respect it, so they pass in every order *)
 Theorem C19_transcribed_tests_respect_contract t : In t all_test_records -> Contract srv_ref t.
 Proof. exact (transcribed_contract t). Qed.
 Print Assumptions C19_transcribed_tests_respect_contract.
@@ -80,8 +80,8 @@ Proof. exact (transcribed_any_order ts s c). Qed.
 Print Assumptions C19_transcribed_tests_pass_in_any_order.
 
 (* the fault catalogue (a finite table, not "every faulty server"): the reference server passes each
-   transcribed test; each of the thirteen single-requirement faulty servers (seven requirements, six of them broken in
-   a second, per-recipient or per-kind way) fails exactly the transcribed tests
+   transcribed test; each of the fifteen single-requirement faulty servers (seven requirements, most of them broken in
+   more than one way: per recipient, per kind of operation, per table, per scope) fails exactly the transcribed tests
    written for the requirement it breaks *)
 Theorem C19_catalogue_reference_passes t : In t all_tests -> model_pass t 0 = Some true.
 Proof. exact (catalogue_reference_passes t). Qed.
